@@ -90,7 +90,14 @@ func abortScenario(c *Ctx, seed uint64, variant int) {
 			for _, f := range later {
 				f()
 			}
-			sc.settle("after cut requests")
+			// the cut handlers have really ended (their goroutines are gone) before the probe starts;
+			// if they have not after 20s their slots count as leaked
+			sc.settleBound, sc.settleKind = 20*time.Second, "syncer-slot-leak"
+			rested := sc.settle("after cut requests")
+			sc.settleBound, sc.settleKind = 0, ""
+			if !rested {
+				break
+			}
 			// all slots are back: every peer fills its channel again
 			probe := map[int]int{}
 			for _, p := range sc.peers {
